@@ -176,5 +176,10 @@ func Replay(plan *Plan, opts Options) (*RunResult, error) {
 		}
 	}
 	sim.Finish()
+	if opts.Log != nil {
+		for _, row := range sortedKeysP(sim) {
+			opts.Log("FINAL " + row)
+		}
+	}
 	return sim.result(plan.Property, plan.Run, plan.Seed, len(plan.Steps)), nil
 }
